@@ -3,6 +3,7 @@ package simrt
 import (
 	"fmt"
 	"sync/atomic"
+	"time"
 	"unsafe"
 )
 
@@ -98,6 +99,7 @@ type Stats struct {
 	ChaseHits      int            `json:"chase_after_put"`
 	Deadlocks      int            `json:"deadlocks"`
 	BudgetAborts   int            `json:"budget_aborts"`
+	ClockJumps     int            `json:"clock_jumps"`               // simulated hours skipped because only timers could make progress
 	ExternalBlocks int            `json:"blocked_outside_simulator"` // a task blocked on a channel/Cond/... of the code under test
 	Leaked         []int          `json:"tasks_blocked_forever,omitempty"`
 	Diverged       bool           `json:"replay_diverged"`
@@ -388,6 +390,9 @@ func (s *Sim) loop() {
 				}
 			}
 			if blocked < 0 {
+				if s.jumpClock() {
+					continue // a timer of the code under test fired and released somebody
+				}
 				for _, t := range s.tasks {
 					if t.state == tsExternal {
 						s.stats.Leaked = append(s.stats.Leaked, t.id)
@@ -420,6 +425,44 @@ func (s *Sim) loop() {
 	}
 	raceEnable()
 	close(s.done)
+}
+
+// jumpClock is the discrete-event step: nothing is runnable but some tasks wait outside the
+// simulator's primitives. Inside a synctest bubble the scheduler sleeps one (fake) hour: every
+// goroutine is then durably blocked, so the bubble's clock jumps to the next timer - a time.Sleep /
+// time.After of the code under test fires first and its task runs on to its next decision point.
+// It reports whether a task came back. Bounded per run.
+func (s *Sim) jumpClock() bool {
+	if s.quiescent == nil || s.stats.ClockJumps >= 200 {
+		return false
+	}
+	waiting := false
+	for _, t := range s.tasks {
+		if t.state == tsExternal {
+			waiting = true
+		}
+	}
+	if !waiting {
+		return false
+	}
+	s.stats.ClockJumps++
+	time.Sleep(time.Hour)
+	progressed := false
+	for {
+		select {
+		case r := <-s.reqCh: // released tasks are parked here already (see above)
+			s.accept(r.task, r)
+			progressed = true
+			continue
+		default:
+		}
+		break
+	}
+	select {
+	case <-s.stuck: // the monitor's notice from before the jump
+	default:
+	}
+	return progressed
 }
 
 // resume lets task t run until its next request and handles that request.
